@@ -24,6 +24,7 @@ import (
 	"os/exec"
 	"regexp"
 	"runtime"
+	"runtime/debug"
 	"runtime/metrics"
 	"strconv"
 	"strings"
@@ -452,8 +453,11 @@ func trim(s string, n int) string {
 }
 
 var gzw *gzip.Writer
+var gzMu sync.Mutex // the parent attributes aborts on several goroutines
 
 func gz(b []byte) []byte {
+	gzMu.Lock()
+	defer gzMu.Unlock()
 	var buf bytes.Buffer
 	if gzw == nil {
 		gzw = gzip.NewWriter(&buf)
@@ -606,7 +610,11 @@ func runCase(ci int, c *caseT, p *plan, seed uint64, nchk, ninj int) []vh.M {
 // ---------------------------------------------------------------------------------------------------------------
 // child and parent
 
-const asCapMiB = 3072 // address-space cap of a child
+// Address-space cap of a child.  The Go runtime itself reserves ~1.5 GiB; the cap is far above that and above the
+// largest single allocation a 32-bit length field can request (4 GiB), so that such allocations SUCCEED and are
+// measured by the allocation counters (the pages are never touched).  Only a reader that keeps allocating hits the cap
+// and aborts; that abort is attributed to the case through the marker.
+const asCapMiB = 12 * 1024
 
 var runStart atomic.Int64
 
@@ -633,6 +641,7 @@ func mainChild(in, out string, nrand int, seed uint64, from, to, nchk, ninj int)
 	if err != nil {
 		vh.Fatal(err)
 	}
+	mark(0, "start", "-", 0) // case 0 = not yet in any case
 	go childWatchdog()
 	for i := from; i < to; i++ {
 		c := p.caseAt(i, seed)
@@ -658,12 +667,28 @@ func mainChild(in, out string, nrand int, seed uint64, from, to, nchk, ninj int)
 	fmt.Printf("{\"next\":%d}\n", to)
 }
 
+// fatal ends the parent with its reason on stderr AND as the last line of stdout (never a silent exit)
+var fatalOnce sync.Once
+
+func fatal(reason string) {
+	fatalOnce.Do(func() {
+		fmt.Fprintln(os.Stderr, "pcapio hostile: FATAL:", reason)
+		o, _ := json.Marshal(vh.M{"fatal": reason})
+		os.Stdout.Write(append(o, '\n'))
+		os.Exit(2)
+	})
+	select {} // another goroutine is already exiting
+}
+
 var oomRe = regexp.MustCompile(`cannot allocate (\d+)-byte block`)
 
 func mainHostile(in, out string, nrand int, seed uint64, workers, nchk, ninj int) {
 	p := loadPlan(in)
 	total := len(p.cases) + nrand
-	self, _ := os.Executable()
+	self, err := os.Executable()
+	if err != nil {
+		fatal("cannot locate own executable: " + err.Error())
+	}
 	if workers < 1 {
 		workers = 1
 	}
@@ -684,7 +709,14 @@ func mainHostile(in, out string, nrand int, seed uint64, workers, nchk, ninj int
 			if to > total {
 				to = total
 			}
+			defer func() {
+				if r := recover(); r != nil {
+					fatal(fmt.Sprintf("worker %d of the parent panicked: %v\n%s", w, r, debug.Stack()))
+				}
+			}()
 			seg := 0
+			startFail := 0
+			killed := map[int]int{}
 			for from < to {
 				seg++
 				tp := fmt.Sprintf("%s.w%d.%d", out, w, seg)
@@ -712,19 +744,51 @@ func mainHostile(in, out string, nrand int, seed uint64, workers, nchk, ninj int
 						stats.Unlock()
 					}
 					from = nx.Next
+					startFail = 0
 					continue
 				}
-				// abnormal end: attribute it to the case named by the marker
+				// abnormal end.  The marker names the case in progress; no marker, the start marker or a case before
+				// `from` mean that the child died outside any case (exec failure, start-up under load, kill): retry.
 				mk, _ := os.ReadFile(tp + ".marker")
 				fs := strings.Fields(string(mk))
-				if len(fs) < 4 {
-					vh.Fatal("child died without a marker:", code, trim(stderr.String(), 2000))
+				ci := 0
+				if len(fs) >= 4 {
+					ci, _ = strconv.Atoi(fs[0])
 				}
-				ci, _ := strconv.Atoi(fs[0])
-				snapkb, _ := strconv.Atoi(fs[3])
 				msg := stderr.String()
-				if cc := p.caseAt(ci-1, seed); p.bases[cc.Base].declaredSnapKB(cc.file) > snapkb {
-					snapkb = p.bases[cc.Base].declaredSnapKB(cc.file)
+				signalled := false
+				if ee, ok := err.(*exec.ExitError); ok {
+					if ws, ok := ee.Sys().(syscall.WaitStatus); ok && ws.Signaled() {
+						signalled = true
+					}
+				}
+				if ci-1 < from || ci > to {
+					startFail++
+					stats.Lock()
+					stats.restarts++
+					stats.Unlock()
+					if startFail > 6 {
+						fatal(fmt.Sprintf("worker %d: child for cases [%d,%d) failed %d times outside any case: exit code %d, error %v, marker %q, stderr: %s",
+							w, from, to, startFail, code, err, strings.TrimSpace(string(mk)), trim(msg, 1500)))
+					}
+					time.Sleep(time.Duration(200*startFail) * time.Millisecond)
+					continue
+				}
+				startFail = 0
+				// killed by a signal (e.g. the kernel's OOM killer while the machine is overloaded) and not by the Go
+				// runtime: not necessarily the fault of the case - run it once more before attributing the abort to it
+				if signalled && killed[ci] < 1 {
+					killed[ci]++
+					stats.Lock()
+					stats.restarts++
+					stats.Unlock()
+					from = ci - 1
+					continue
+				}
+				snapkb, _ := strconv.Atoi(fs[3])
+				c := p.caseAt(ci-1, seed)
+				if d := p.bases[c.Base].declaredSnapKB(c.file); d > snapkb {
+					snapkb = d
 				}
 				oom := false
 				reqkb := 0
@@ -738,33 +802,24 @@ func mainHostile(in, out string, nrand int, seed uint64, workers, nchk, ninj int
 					first = first[:i]
 				}
 				site := vh.SiteSig(os.Getenv("VERIF_REPO"), vh.SiteFromStack(msg))
-				c := p.caseAt(ci-1, seed)
 				format := p.bases[c.Base].Scen.Fmt
 				gzl := 0
 				if format != "snoop" {
 					gzl = len(gz(c.file))
 				}
+				caseEv := vh.M{"op": "case", "cs": ci, "fmt": format, "base": c.Base, "loc": c.Loc, "cls": c.Cls, "src": c.Src,
+					"present": len(c.file) + gzl, "size": len(c.file), "hex": caseHex(&c)}
 				if code == 5 && strings.Contains(msg, "HANG:") {
-					crashes[w] = append(crashes[w],
-						vh.M{"op": "case", "cs": ci, "fmt": format, "base": c.Base, "loc": c.Loc, "cls": c.Cls, "src": c.Src, "present": len(c.file) + gzl, "size": len(c.file), "hex": caseHex(&c)},
-						vh.M{"op": "hang", "cs": ci, "rd": fs[1], "shape": fs[2]})
-					stats.Lock()
-					stats.crashes++
-					stats.Unlock()
-					from = ci
-					continue
+					crashes[w] = append(crashes[w], caseEv, vh.M{"op": "hang", "cs": ci, "rd": fs[1], "shape": fs[2]})
+				} else {
+					crashes[w] = append(crashes[w], caseEv,
+						vh.M{"op": "crash", "cs": ci, "rd": fs[1], "shape": fs[2], "snapkb": snapkb, "oom": oom, "reqkb": reqkb, "code": code,
+							"signal": signalled, "msg": trim(strings.ReplaceAll(first, "\n", " / "), 300), "site": site})
 				}
-				crashes[w] = append(crashes[w],
-					vh.M{"op": "case", "cs": ci, "fmt": format, "base": c.Base, "loc": c.Loc, "cls": c.Cls, "src": c.Src, "present": len(c.file) + gzl, "size": len(c.file), "hex": caseHex(&c)},
-					vh.M{"op": "crash", "cs": ci, "rd": fs[1], "shape": fs[2], "snapkb": snapkb, "oom": oom, "reqkb": reqkb, "code": code,
-						"msg": trim(strings.ReplaceAll(first, "\n", " / "), 300), "site": site})
 				stats.Lock()
 				stats.crashes++
 				stats.Unlock()
-				if ci-1 < from { // no progress possible
-					vh.Fatal("child makes no progress at case", ci, trim(msg, 2000))
-				}
-				from = ci // cases are numbered from 1: continue with the case after the crashed one
+				from = ci // cases are numbered from 1: continue with the case after the aborted one
 			}
 		}(w)
 	}
@@ -792,6 +847,6 @@ func mainHostile(in, out string, nrand int, seed uint64, workers, nchk, ninj int
 		tr.EmitBlock(crashes[w])
 	}
 	tr.Close()
-	o, _ := json.Marshal(vh.M{"cases": total, "tlc_cases": len(p.cases), "events": tr.N, "crashes": stats.crashes, "recycles": stats.recycles, "chunkings": len(p.chunks)})
+	o, _ := json.Marshal(vh.M{"cases": total, "tlc_cases": len(p.cases), "events": tr.N, "crashes": stats.crashes, "recycles": stats.recycles, "restarts": stats.restarts, "chunkings": len(p.chunks)})
 	os.Stdout.Write(append(o, '\n'))
 }
